@@ -749,6 +749,15 @@ def lossyStart (aControlling bFirst gap deadA deadB deadFirst : Bool) (component
     let n2 := if gap then (Net.flush 12 (n1, ⟨false, false, false, false⟩)).1 else n1
     n2.opB .connect
 
+/-- two agents with exchanged credentials and one candidate each whose roles are chosen INDEPENDENTLY (both controlling / both
+controlled = glare); both call `connectToHost`, A first -/
+def rolesNet (aControlling bControlling : Bool) (component : Nat) : Net :=
+  let pr := localPriority component
+  let a0 := (run (init aControlling component) [.setRemoteCreds, .addRemote 2 pr]).1
+  let b0 := (run (init bControlling component) [.setRemoteCreds, .addRemote 1 pr]).1
+  let n0 : Net := { a := a0, b := b0, addrA := 1, addrB := 2 }
+  (n0.opA .connect).opB .connect
+
 def bothConnected (n : Net) : Bool := n.a.active == some 2 && n.b.active == some 1
 
 end Qx.C15
